@@ -419,13 +419,14 @@ theorem np_writeCode (hF : FramesNoPanic) (c : Code) (p : Pool) (bs : List Bsm) 
     refine np_bind (hF is res hres _ p2) (fun ⟨smt, p3⟩ => ?_)
     refine np_bind (np_runAttrs _ ?_ _) (fun ⟨_, _⟩ => np_bind (np_attrsBytes _) (fun _ => np_pure _))
     intro w hw
-    simp only [List.mem_cons, List.not_mem_nil, or_false] at hw
-    rcases hw with rfl | rfl | rfl | rfl | rfl
+    simp only [List.mem_append, List.mem_cons, List.not_mem_nil, or_false] at hw
+    rcases hw with (rfl | rfl | rfl | rfl | rfl) | hw
     · exact npa_ifSome (fun ls p => np_attrBuf (fun p => np_writeSlice16 (np_writeLine _) p ls) p)
     · exact npa_lvAttr _ _ _ _
     · exact npa_lvAttr _ _ _ _
     · exact npa_typeAnnosAttr (np_writeTargetCode _) _ _
     · exact npa_typeAnnosAttr (np_writeTargetCode _) _ _
+    · exact npa_unknownAttrs _ w hw
 
 theorem np_codeAttr (hF : FramesNoPanic) (code : Option Code) (p : Pool) (bs : List Bsm) : NP (codeAttr code p bs) := by
   unfold codeAttr
